@@ -148,3 +148,25 @@ def gen_act(parent):
                         yield ({"parent": parent, "init": {}, "react": react, "act": act, "start": c,
                                 "events": ["A", "A"]}, True)
 
+
+
+def renamed(gen, mapping):
+    """the same scenarios with user signals renamed (e.g. A -> U_SIGNAL: a user signal that ends like the built-in ones)"""
+    def g(parent):
+        for base, nontrivial in gen(parent):
+            b = dict(base)
+            b["react"] = {(s_, mapping.get(n, n)): v for (s_, n), v in base["react"].items()}
+            b["events"] = [mapping.get(n, n) for n in base["events"]]
+            yield b, nontrivial
+    g.__name__ = "renamed_" + getattr(gen, "__name__", "gen")
+    return g
+
+
+def _ren_c01(parent):
+    from mc.props import c01
+    return renamed(c01.gen, {"A": "U_SIGNAL"})(parent)
+
+
+def _ren_c02(parent):
+    from mc.props import c02
+    return renamed(c02.gen, {"A": "U_SIGNAL"})(parent)
